@@ -72,6 +72,22 @@ func checkViews(qf qframe.QFrame, tab hx.Table) string {
 	if qf.Len() != tab.N() && len(tab.Cols) > 0 {
 		return fmt.Sprintf("Len()=%d, model %d", qf.Len(), tab.N())
 	}
+	// the cheap name/type observers
+	tm := qf.ColumnTypeMap()
+	if len(tm) != len(tab.Cols) {
+		return fmt.Sprintf("ColumnTypeMap has %d entries, frame has %d columns", len(tm), len(tab.Cols))
+	}
+	for _, c := range tab.Cols {
+		if !qf.Contains(c.Name) {
+			return fmt.Sprintf("Contains(%q) is false for a column of the frame", c.Name)
+		}
+		if string(tm[c.Name]) != c.Kind.String() {
+			return fmt.Sprintf("ColumnTypeMap[%q]=%s, ColumnTypes says %s", c.Name, tm[c.Name], c.Kind)
+		}
+	}
+	if qf.Contains("no-such-column") || qf.Contains(hx.HelperRank) {
+		return "Contains reports a column that is not in the frame"
+	}
 	for _, c := range tab.Cols {
 		switch c.Kind {
 		case hx.KInt:
